@@ -251,6 +251,27 @@ mod dispatch {
             }
         };
     }
+    /// every type has its own dispatch arm and it uses that type's carrier (concrete operands; the symbolic versions of the
+    /// wider types are in the thorough tier)
+    macro_rules! int_arm {
+        ($name:ident, $variant:ident, $carrier:ty, $ity:expr) => {
+            #[kani::proof]
+            fn $name() {
+                let lit = |v: $carrier| SemValue::Literal(Literal::Integer(IntegerLiteral::$variant(v)));
+                assert!(run($ity, IntegerOperation::Add, [lit(<$carrier>::MAX), lit(1)]) == Some(IntegerLiteral::$variant(<$carrier>::MIN)));
+                assert!(run($ity, IntegerOperation::Sub, [lit(<$carrier>::MIN), lit(1)]) == Some(IntegerLiteral::$variant(<$carrier>::MAX)));
+                assert!(run($ity, IntegerOperation::Mul, [lit(3), lit(5)]) == Some(IntegerLiteral::$variant(15)));
+                assert!(run($ity, IntegerOperation::Div, [lit(7), lit(2)]) == Some(IntegerLiteral::$variant(3)));
+                assert!(run($ity, IntegerOperation::Mod, [lit(7), lit(2)]) == Some(IntegerLiteral::$variant(1)));
+            }
+        };
+    }
+    int_arm!(integer_arm_int16, Int16, i16, IntegerType::Int16);
+    int_arm!(integer_arm_int32, Int32, i32, IntegerType::Int32);
+    int_arm!(integer_arm_int64, Int64, i64, IntegerType::Int64);
+    int_arm!(integer_arm_uint16, UInt16, u16, IntegerType::UInt16);
+    int_arm!(integer_arm_uint32, UInt32, u32, IntegerType::UInt32);
+    int_arm!(integer_arm_uint64, UInt64, u64, IntegerType::UInt64);
     int_dispatch!(integer_arithmetic_int8, integer_muldivmod_int8, Int8, i8, IntegerType::Int8);
     int_dispatch!(integer_arithmetic_int16, integer_muldivmod_int16, Int16, i16, IntegerType::Int16);
     int_dispatch!(integer_arithmetic_int32, integer_muldivmod_int32, Int32, i32, IntegerType::Int32);
